@@ -11,7 +11,7 @@ import z3
 from z3 import And, Or, Not, Implies, If, IntVal, RealVal, BoolVal
 from ..pyvc import sorts as so
 from ..pyvc.sorts import fresh, I, R, B, cnt
-from ..pyvc.values import SList, SDict, SObj, NONE, PyConst, FuncRef, Callback, TupleSpec, Unsupported, coerce
+from ..pyvc.values import SList, SDict, SObj, NONE, PyConst, FuncRef, Callback, TupleSpec, Unsupported, coerce, SHeap
 from ..pyvc.engine import Unbindable
 from ..pyvc.verify import Contract, Case, LoopSpec
 from . import types as T
@@ -37,33 +37,51 @@ def TR():
 
 
 def ev_list():
-    return T.list_of(EV)
+    def mk(run, name, empty=False, **kw):
+        ev = EV()
+        if empty:
+            return SHeap(ev, n=IntVal(0), a=fresh(name + '_a', z3.ArraySort(I, ev.zsort())),
+                         dead=z3.K(I, BoolVal(False)), ndead=IntVal(0), name=name)
+        return SHeap(ev, name=name)
+    return mk
 
 
 def mk_queue(run, name, empty=False, ctor_args=None, **kw):
     ev = EV()
-    q = SObj('myQueue', dict(_Q_=SList(ev, name=name + '_Q'), tmax=fresh(name + '_tmax', so.XR()),
+    q = SObj('myQueue', dict(_Q_=SHeap(ev, name=name + '_Q'), tmax=fresh(name + '_tmax', so.XR()),
                              counter=fresh(name + '_counter', I)), name=name)
     if ctor_args is not None:
         args, kws = ctor_args
         tm = kws.get('tmax', args[0] if args else so.xr_inf())
         q.f['tmax'] = so.to_xr(tm)
-        q.f['_Q_'] = SList(ev, n=IntVal(0), a=fresh(name + '_Qa', z3.ArraySort(I, ev.zsort())), name=name + '_Q')
+        q.f['_Q_'] = SHeap(ev, n=IntVal(0), a=fresh(name + '_Qa', z3.ArraySort(I, ev.zsort())),
+                           dead=z3.K(I, BoolVal(False)), ndead=IntVal(0), name=name + '_Q')
         q.f['counter'] = IntVal(0)
     return q
 
 
 def same_list(a, b):
-    return And(a.n == b.n, a.a == b.a)
+    c = [a.n == b.n, a.a == b.a]
+    if isinstance(a, SHeap) and isinstance(b, SHeap):
+        c += [a.dead == b.dead, a.ndead == b.ndead]
+    return And(*c)
+
+
+def _same_dead(new, old):
+    if isinstance(new, SHeap) and isinstance(old, SHeap):
+        return [new.ndead == old.ndead, so.forall_idx(old.n, lambda i: new.dead[i] == old.dead[i]),
+                so.forall_idx(new.n, lambda i: Not(new.dead[i]), lo=old.n)]
+    return []
 
 
 def appended(new, old, x):
     """new == old + [x]"""
-    return And(new.n == old.n + 1, new.a[old.n] == x, so.forall_idx(old.n, lambda i: new.a[i] == old.a[i]))
+    return And(new.n == old.n + 1, new.a[old.n] == x, so.forall_idx(old.n, lambda i: new.a[i] == old.a[i]),
+               *_same_dead(new, old))
 
 
 def extends(new, old):
-    return And(new.n >= old.n, so.forall_idx(old.n, lambda i: new.a[i] == old.a[i]))
+    return And(new.n >= old.n, so.forall_idx(old.n, lambda i: new.a[i] == old.a[i]), *_same_dead(new, old))
 
 
 # ---------------------------------------------------------------------------------------------------
@@ -111,7 +129,7 @@ def encode_event(run, fn, args, lineno, check_binding=True):
 
 def heappush(run, args, kw, lineno):
     heap, item = args[0], args[1]
-    if not (isinstance(heap, SList) and isinstance(heap.esort, TupleSpec) and heap.esort.name == 'Ev'):
+    if not isinstance(heap, SHeap):
         raise Unsupported('heapq.heappush on something that is not the event heap')
     if not (isinstance(item, tuple) and len(item) == 4):
         run.oblige('site', 'heap-item-shape', lineno, BoolVal(False))
@@ -124,29 +142,30 @@ def heappush(run, args, kw, lineno):
         tval = so.xr_val(time)
     ev = heap.esort.D.mk(coerce(tval, R), counter, kind, has, src, tgt)
     heap.a = z3.Store(heap.a, heap.n, ev)
+    heap.dead = z3.Store(heap.dead, heap.n, BoolVal(False))
     heap.n = heap.n + 1
     if so.Mode.finite:
         run.assume(heap.n <= so.Mode.lmax)
+    run.assume(heap.wellformed())           # model invariant of the heap (ndead counts the popped indices)
     return NONE
 
 
 def heappop(run, args, kw, lineno):
     """assumed heapq contract: removes and returns a minimal item (lexicographic on (time, counter))"""
     heap = args[0]
-    if not (isinstance(heap, SList) and isinstance(heap.esort, TupleSpec) and heap.esort.name == 'Ev'):
+    if not isinstance(heap, SHeap):
         raise Unsupported('heapq.heappop on something that is not the event heap')
-    run.oblige('safety', 'heappop-nonempty', lineno, heap.n > 0)
+    run.oblige('safety', 'heappop-nonempty', lineno, heap.size() > 0)
     D = heap.esort.D
     m = fresh('minidx', I)
-    run.assume(And(0 <= m, m < heap.n))
-    run.assume(so.forall_idx(heap.n, lambda j: Or(D.time(heap.a[m]) < D.time(heap.a[j]),
-                                                  And(D.time(heap.a[m]) == D.time(heap.a[j]),
-                                                      D.counter(heap.a[m]) <= D.counter(heap.a[j])))))
+    run.assume(heap.alive(m))
+    run.assume(so.forall_idx(heap.n, lambda j: Implies(Not(heap.dead[j]), Or(
+        D.time(heap.a[m]) < D.time(heap.a[j]),
+        And(D.time(heap.a[m]) == D.time(heap.a[j]), D.counter(heap.a[m]) <= D.counter(heap.a[j]))))))
     ev = heap.a[m]
-    old_a = heap.a
-    j = z3.Int('lam_i')
-    heap.a = z3.Lambda([j], If(j < m, old_a[j], old_a[j + 1]))
-    heap.n = heap.n - 1
+    heap.dead = z3.Store(heap.dead, m, BoolVal(True))
+    heap.ndead = heap.ndead + 1
+    run.assume(heap.wellformed())           # model invariant of the heap (ndead counts the popped indices)
     calls = run.ghost.setdefault('handler_calls', [])
 
     def handler(run2, a2, k2, ln):
@@ -177,6 +196,10 @@ def joint_delay_callback(run, name='trans_and_rec_time_fxn'):
         rd = fresh('rec_delay', so.XR())
         run2.assume(so.forall(so.U(), lambda v: Implies(td.dom[v], nonneg_xr(td.val[v]))))
         run2.assume(nonneg_xr(rd))
+        if len(args) >= 2 and isinstance(args[1], SList):
+            # the rule only returns delays for (some of) the neighbours it was asked about
+            sus = args[1]
+            run2.assume(so.forall(so.U(), lambda v: Implies(td.dom[v], sus.contains(v))))
         run2.ghost.setdefault('cb_calls', []).append(dict(args=args, kw=kw, td=td, rd=rd,
                                                          status_val=run2.cur_env['status'].val if 'status' in run2.cur_env else None))
         return (td, rd)
@@ -232,8 +255,8 @@ def contracts():
 
     cs.append(Contract(F, 'myQueue.__len__',
         cases=[Case('any', dict(self=mk_queue))],
-        pure=lambda s: s.self._Q_.n,
-        ensures=lambda old, s, ret: And(ret == old.self._Q_.n, same_list(s.self._Q_, old.self._Q_))))
+        pure=lambda s: s.self._Q_.size(),
+        ensures=lambda old, s, ret: And(ret == old.self._Q_.size(), same_list(s.self._Q_, old.self._Q_))))
 
     def pop_post(old, s, ret):
         calls = s.run.ghost.get('handler_calls', [])
@@ -247,17 +270,19 @@ def contracts():
                    and isinstance(a2[2], PyConst) and a2[2].v == 'arg1')
         if not ok_args:
             return BoolVal(False)
-        return And(a2[0] == D.time(ev), s.self._Q_.n == old.self._Q_.n - 1, s.self.tmax == old.self.tmax)
+        q0, q1 = old.self._Q_, s.self._Q_
+        return And(a2[0] == D.time(ev), q1.size() == q0.size() - 1, q1.n == q0.n, q1.a == q0.a,
+                   q1.dead == z3.Store(q0.dead, m, BoolVal(True)), s.self.tmax == old.self.tmax)
 
     cs.append(Contract(F, 'myQueue.pop_and_run',
         cases=[Case('nonempty', dict(self=mk_queue))],
-        requires=lambda s: s.self._Q_.n > 0, modifies=['self'],
+        requires=lambda s: s.self._Q_.size() > 0, modifies=['self'],
         ensures=pop_post,
         note='the stored function is called exactly once as function(t, *args) with the popped minimal event'))
 
     def init_post(old, s, ret):
         q = s.self
-        return And(q._Q_.n == 0, q.counter == 0, so.xr_eq(q.tmax, so.to_xr(old.tmax)))
+        return And(q._Q_.n == 0, q._Q_.size() == 0, q.counter == 0, so.xr_eq(q.tmax, so.to_xr(old.tmax)))
 
     cs.append(Contract(F, 'myQueue.__init__',
         cases=[Case('any', dict(self=lambda run, name, **kw: SObj('myQueue', {}, name=name), tmax=T.xreal))],
@@ -292,6 +317,16 @@ def contracts():
         return And(rows_local(s), s.time >= s.times.last(), so.xr_lt(s.time, s.Q.tmax), s.Q._Q_.n >= 0)
 
     def cb(s):
+        if s.has('caller_view'):
+            # caller view (the queue rule): the user rule's answer is some (td, rd) with the assumed properties
+            key = 'cv_cb_%d' % id(s.run)
+            c = s.run.ghost.get('cv_cb')
+            if c is None or c.get('stamp') != s.run.nobl:
+                td = SDict(so.U(), so.XR(), name='cv_trans_delay')
+                rd = fresh('cv_rec_delay', so.XR())
+                c = dict(td=td, rd=rd, args=None, kw=None, status_val=None, stamp=s.run.nobl, caller=True)
+                s.run.ghost['cv_cb'] = c
+            return c
         calls = s.run.ghost.get('cb_calls', [])
         return calls[0] if len(calls) == 1 else None
 
@@ -302,13 +337,19 @@ def contracts():
         unchanged = And(same_list(s.times, old.times), same_list(s.S, old.S), same_list(s.I, old.I), same_list(s.R, old.R),
                         s.status.val == old.status.val, s.rec_time.val == old.rec_time.val,
                         s.pred_inf_time.val == old.pred_inf_time.val, same_list(q1, q0), s.Q.counter == old.Q.counter,
-                        same_list(s.transmissions, old.transmissions))
+                        s.Q.tmax == old.Q.tmax, same_list(s.transmissions, old.transmissions))
         c = cb(s)
         if c is None:
             # the user rule is consulted exactly once when the target gets infected (and not at all otherwise)
             ncalls = len(s.run.ghost.get('cb_calls', []))
             return And(Not(was_S), unchanged) if ncalls == 0 else BoolVal(False)
         td, rd = c['td'], c['rd']
+        G = old.G
+        cv_facts = BoolVal(True)
+        if c.get('caller'):
+            cv_facts = And(so.forall(so.U(), lambda v: Implies(td.dom[v], And(nonneg_xr(td.val[v]), G.adj(old.target, v),
+                                                                              old.status.val[v] == SC('S'), v != old.target))),
+                           nonneg_xr(rd))
         time, tgt = old.time, old.target
         rec_new = so.xr_add(time, rd)
         tmax = old.Q.tmax
@@ -323,14 +364,22 @@ def contracts():
             rows_local(s),
             appended(s.transmissions, old.transmissions, src_ok),
             s.rec_time.val == z3.Store(old.rec_time.val, tgt, rec_new),
-            s.Q.tmax == tmax, extends(q1, q0),
+            s.Q.tmax == tmax, extends(q1, q0), s.Q.counter >= old.Q.counter,
+            so.forall_idx(q1.n, lambda j: And(D.counter(q1.a[j]) >= old.Q.counter, D.counter(q1.a[j]) < s.Q.counter,
+                                              so.forall_idx(q1.n, lambda j2: Implies(j != j2, D.counter(q1.a[j]) != D.counter(q1.a[j2])), lo=q0.n)),
+                           lo=q0.n),
+            cv_facts,
             # L2 no spurious event
             so.forall_idx(q1.n, lambda j: Or(
                 And(D.kind(q1.a[j]) == KINDS['_process_rec_SIR_'], D.tgt(q1.a[j]) == tgt, Not(D.has_src(q1.a[j])),
                     so.xr_eq(so.xr_fin(D.time(q1.a[j])), rec_new), so.xr_lt(rec_new, tmax)),
-                And(is_trans(q1.a[j], D.tgt(q1.a[j])), td.dom[D.tgt(q1.a[j])],
+                And(is_trans(q1.a[j], D.tgt(q1.a[j])), td.dom[D.tgt(q1.a[j])], G.adj(tgt, D.tgt(q1.a[j])),
                     so.xr_eq(so.xr_fin(D.time(q1.a[j])), tnew(D.tgt(q1.a[j]))),
                     so.xr_le(tnew(D.tgt(q1.a[j])), rec_new), so.xr_lt(tnew(D.tgt(q1.a[j])), tmax))), lo=q0.n),
+            # at most one recovery event is scheduled
+            so.forall_idx(q1.n, lambda j: so.forall_idx(q1.n, lambda j2: Implies(
+                And(D.kind(q1.a[j]) == KINDS['_process_rec_SIR_'], D.kind(q1.a[j2]) == KINDS['_process_rec_SIR_']), j == j2),
+                lo=q0.n), lo=q0.n),
             # L3 recovery scheduled iff it happens before tmax
             so.xr_lt(rec_new, tmax) == so.exists_idx(q1.n, lambda j: And(D.kind(q1.a[j]) == KINDS['_process_rec_SIR_'],
                                                                            D.tgt(q1.a[j]) == tgt), lo=q0.n),
@@ -344,7 +393,7 @@ def contracts():
                     Implies(so.xr_lt(tnew(v), tmax),
                             so.exists_idx(q1.n, lambda j: And(is_trans(q1.a[j], v), so.xr_eq(so.xr_fin(D.time(q1.a[j])), tnew(v))), lo=q0.n)))))),
             # the user rule is asked about the newly infected node and exactly its susceptible neighbours
-            callback_args_ok(old, s, c))
+            callback_args_ok(old, s, c) if not c.get('caller') else BoolVal(True))
         return If(was_S, infected, unchanged)
 
     def callback_args_ok(old, s, c):
@@ -378,8 +427,12 @@ def contracts():
         is_trans = lambda e, v: And(D.kind(e) == KINDS['_process_trans_SIR_'], D.has_src(e), D.src(e) == tgt, D.tgt(e) == v)
         return And(
             s.Q.tmax == it.entry.Q.tmax, extends(q1, q0), s.Q.counter >= it.entry.Q.counter,
+            so.forall_idx(q1.n, lambda j: And(D.counter(q1.a[j]) >= it.entry.Q.counter, D.counter(q1.a[j]) < s.Q.counter,
+                                              so.forall_idx(q1.n, lambda j2: Implies(j != j2, D.counter(q1.a[j]) != D.counter(q1.a[j2])), lo=q0.n)),
+                           lo=q0.n),
             so.forall_idx(q1.n, lambda j: And(
                 is_trans(q1.a[j], D.tgt(q1.a[j])), td.dom[D.tgt(q1.a[j])], it.done(D.tgt(q1.a[j])),
+                s.G.adj(tgt, D.tgt(q1.a[j])),
                 so.xr_eq(so.xr_fin(D.time(q1.a[j])), tnew(D.tgt(q1.a[j]))),
                 so.xr_le(tnew(D.tgt(q1.a[j])), rec_new), so.xr_lt(tnew(D.tgt(q1.a[j])), tmax)), lo=q0.n),
             so.forall(so.U(), lambda v: And(
